@@ -8,7 +8,9 @@ SPEC = dict(
     rule='case = one swarm-weighted history of 20..120 operations over 4..6 Variant variables: assignment/construction from every alternative (null, bool, double, int, uint, int64, uint64, '
          'String, List, Array, HashMap, nested up to 3 levels), copy-construct, operator=(Variant) incl. self, swap, clear, mutable toString/toList/toArray/toMap followed by a mutation of the '
          'returned container (append/prepend/insert/remove/overwrite/clear/resize, or descent into an element and the same again, up to 3 levels), assignment from an element of another or of the '
-         'same variable, assignment from the const container view of another variable. distinct = hash of the (operation kind, receiver type) sequence; non-trivial = made >=1 lazy copy of a heap '
+         'same variable, assignment from the const container view of another variable, typed self-assignment (v = v.toX() through the mutable and v = ((const Variant&)v).toX() through the const accessor, '
+         'X = String/List/Array/HashMap, own type or another type, on a variable or on a nested element reached through the mutable accessors, sole owner and shared: the model stays as it is '
+         'when X is the held type). distinct = hash of the (operation kind, receiver type) sequence; non-trivial = made >=1 lazy copy of a heap '
          'payload and >=1 mutable access to a shared payload (copy-on-write clone). After every operation, for every variable and every nested element: getType, isNull, own value, every to* '
          'coercion against an independently written coercion table, const container accessors; x == copy, copy == x, != for every intact copy; ==/!= of all ordered pairs against the table.',
     assumptions=['floating values are finite (never NaN); a (value, target) coercion whose result the language leaves undefined (truncated double outside the target range; decimal string outside a '
@@ -17,13 +19,16 @@ SPEC = dict(
                  'where the statement is silent the header is followed: equality dispatches on the left operand\'s type, a mutable accessor of a different type replaces the value by an empty '
                  'container (or by the decimal text for toString), bool==number compares after coercing the right operand',
                  'the reference returned by a mutable accessor is used immediately and not kept across a later copy of that Variant (v.toList().append(v) with a shared-to-be payload is not generated)',
-                 'v = ((const Variant&)v).toList() and similar self-assignments of the contained List/Array/HashMap are container self-assignment (C04), not generated here',
+                 'typed assignment of a container that lives inside an element of the receiver (v = ((const Variant&)v).toList().front().toList()) is not generated: List/Array/HashMap::operator= '
+                 'with an argument inside one of its own elements is a container aliasing question (C04); the Variant overload operator=(const Variant&) with such an argument is generated',
                  'strings contain no NUL bytes and no "nan"/"inf" texts'],
     technique='tagged-tree value model in plain C structs, ASan/UBSan/LSan',
     exhaustive={Q: False, T: False},
     jobs=[job('hist', 'h_variant', 'hist', cases={Q: 40000, T: 400000}, procs=16, probes=PROBES)],
     floors={Q: dict(ops=1000000, coercions_compared=80000000, equalities_compared=20000000, copy_equalities_checked=400000, cow_clones_of_shared_payload=40000, nested_cow_clones=6000,
-                    op_assign_own_element=8000, **{'set:mutable_access_cells': 120, 'set:op_type_cells': 300}),
+                    op_assign_own_element=8000, op_assign_own_value=100000, op_assign_own_value_nested=15000, own_value_inplace_string=20000, own_value_inplace_list=10000, own_value_inplace_array=10000,
+                    own_value_inplace_map=10000, **{'set:mutable_access_cells': 120, 'set:op_type_cells': 300, 'set:own_value_cells': 200}),
             T: dict(ops=20000000, coercions_compared=1600000000, equalities_compared=400000000, copy_equalities_checked=8000000, cow_clones_of_shared_payload=800000, nested_cow_clones=120000,
-                    op_assign_own_element=160000, **{'set:mutable_access_cells': 120, 'set:op_type_cells': 300})},
+                    op_assign_own_element=160000, op_assign_own_value=1000000, op_assign_own_value_nested=150000, own_value_inplace_string=200000, own_value_inplace_list=100000, own_value_inplace_array=100000,
+                    own_value_inplace_map=100000, **{'set:mutable_access_cells': 120, 'set:op_type_cells': 300, 'set:own_value_cells': 200})},
 )
